@@ -100,7 +100,7 @@ namespace _fmt_basics {
 	void print_digits(S &sink, T number, bool negative, int radix,
 			int width, int precision, char padding, bool left_justify,
 			bool group_thousands, bool always_sign, bool plus_becomes_space,
-			bool use_capitals, locale_options locale_opts) {
+			bool use_capitals, locale_options locale_opts, const char *prefix = nullptr) {
 		const char *digits = use_capitals ? "0123456789ABCDEF" : "0123456789abcdef";
 		char buffer[64];
 
@@ -155,6 +155,9 @@ namespace _fmt_basics {
 		// The sign character is part of the field.
 		if(negative || always_sign || plus_becomes_space)
 			final_width++;
+		// So is the prefix of an alternate form (e.g. "0x"); it follows the sign.
+		if(prefix)
+			final_width += generic_strlen(prefix);
 
 		auto emit_sign = [&] () {
 			if(negative)
@@ -163,6 +166,8 @@ namespace _fmt_basics {
 				sink.append('+');
 			else if(plus_becomes_space)
 				sink.append(' ');
+			if(prefix)
+				sink.append(prefix);
 		};
 
 		// Zero padding goes between the sign and the digits, blank padding before the sign.
@@ -202,16 +207,16 @@ namespace _fmt_basics {
 			int precision = 1, char padding = ' ', bool left_justify = false,
 			bool group_thousands = false, bool always_sign = false,
 			bool plus_becomes_space = false, bool use_capitals = false,
-			locale_options locale_opts = {}) {
+			locale_options locale_opts = {}, const char *prefix = nullptr) {
 		if(number < 0) {
 			auto absv = ~static_cast<typename std::make_unsigned_t<T>>(number) + 1;
 			print_digits(sink, absv, true, radix, width, precision, padding,
 					left_justify, group_thousands, always_sign, plus_becomes_space, use_capitals,
-					locale_opts);
+					locale_opts, prefix);
 		}else{
 			print_digits(sink, number, false, radix, width, precision, padding,
 					left_justify, group_thousands, always_sign, plus_becomes_space, use_capitals,
-					locale_opts);
+					locale_opts, prefix);
 		}
 	}
 
